@@ -1,10 +1,10 @@
 //! xsgh — runs the real xml_schema_generator (path dependency on /repo, rebuilt from the
 //! working tree) on generated inputs and writes Coq case files in which the model is
 //! evaluated on the same inputs.
-mod c03;
 mod c15;
 mod chars;
 mod core;
+mod docprops;
 mod docs;
 mod xml;
 mod emit;
@@ -74,7 +74,12 @@ fn main() {
     let mut ctx = Ctx { prop: prop.clone(), thorough, seed, out: out.clone(), rng: rng::Rng::new(seed), meta: vec![], args: rest, impl_failures: vec![], shards: vec![], verif: std::env::var("XSG_VERIF").unwrap_or("/verif".to_string()) };
     match prop.as_str() {
         "C15" => c15::run(&mut ctx),
-        "C03" => c03::run(&mut ctx),
+        "C01" => docprops::c01(&mut ctx),
+        "C03" => docprops::c03(&mut ctx),
+        "C04" => docprops::c04(&mut ctx),
+        "C09" => docprops::c09(&mut ctx),
+        "C10" => docprops::c10(&mut ctx),
+        "C14" => docprops::c14(&mut ctx),
         "unicode-table" => {
             print!("{}", chars::table_source());
             return;
